@@ -59,6 +59,8 @@ struct World {
     int ntasks = 0;
     int sched_thread = -1;
     bool in_release[8] = {false};
+    int refs = 1;                       // references held by the harness threads
+    bool final_release_running = false; // the release call that drops the last reference has been entered
     bool destroyed = false;
     int destroyed_by = -1;
     bool all_done = false;
@@ -82,7 +84,9 @@ static void task_fn(struct aws_task *task, void *arg, enum aws_task_status statu
     t->thread = tid();
     t->vtime = ds::now_ns();
     int me = tid();
-    t->in_release = me >= 0 && me < 8 && w.in_release[me];
+    // the statement does not say which thread delivers the cancellations of the final release (today the releasing
+    // thread, after the join; the scheduler thread before it exits would do as well): any release in progress counts
+    t->in_release = w.final_release_running;
     if (w.all_done) ctx.note_fail(fmt("task %d invoked after the final release returned", t->id));
     if (status == AWS_TASK_STATUS_RUN_READY) {
         w.runs++;
@@ -104,8 +108,8 @@ static void task_fn(struct aws_task *task, void *arg, enum aws_task_status statu
         // cancelled status: either the task was cancelled, or it was still pending when the last reference went away
         if (!t->cancelled) {
             w.canceled_at_release++;
-            if (!t->in_release) ctx.note_fail(fmt("task %d got CANCELED on t%d although it was not cancelled and no release was in progress there", t->id, me));
-        } else if (t->chain && me == 1 && w.ntasks < MAXT) {
+            if (!t->in_release) ctx.note_fail(fmt("task %d got CANCELED on t%d although it was not cancelled and no release was in progress", t->id, me));
+        } else if (t->chain && me == 1 && !t->in_release && w.ntasks < MAXT) {
             // a cancellation delivered by the scheduler thread: the callback may use the scheduler again
             // ("tasks may be scheduled ... from any thread"); the scheduler cannot be freed before its thread is joined
             TaskRec *n = &w.tasks[w.ntasks];
@@ -137,6 +141,7 @@ static void after_release(World &w, int me) {
 static void do_release(World &w) {
     int me = tid();
     w.in_release[me] = true;
+    if (--w.refs == 0) w.final_release_running = true; // (one thread runs at a time: plain counters are exact)
     aws_thread_scheduler_release(w.sched);
     w.in_release[me] = false;
     after_release(w, me);
@@ -201,6 +206,7 @@ static void *client(void *p) {
         }
         case REF:
             aws_thread_scheduler_acquire(w.sched);
+            w.refs++;
             do_release(w);
             break;
         }
@@ -248,7 +254,7 @@ static void run(const Case &c, Ctx &ctx) {
         }
         ClientArg args[3];
         pthread_t th[3];
-        for (int i = 0; i < ncl; i++) aws_thread_scheduler_acquire(w.sched);
+        for (int i = 0; i < ncl; i++) aws_thread_scheduler_acquire(w.sched), w.refs++;
         for (int i = 0; i < ncl; i++) {
             args[i] = ClientArg{&w, i};
             pthread_create(&th[i], nullptr, client, &args[i]);
